@@ -54,6 +54,20 @@ class Adapter:
     def s_ExprStatNode(self,n): return ast.Expr(self.expr(n.expr))
     def s_PassStatNode(self,n): return ast.Pass()
     def s_GlobalNode(self,n): return ast.Global([str(x) for x in n.names])
+    def s_TryExceptStatNode(self,n):
+        hs=[]
+        for c in n.except_clauses:
+            pats = c.pattern or []
+            typ = None if not pats else (self.expr(pats[0]) if len(pats)==1 else ast.Tuple([self.expr(x) for x in pats], ast.Load()))
+            name = str(c.target.name) if getattr(c,'target',None) is not None else None
+            hs.append(self.loc(c, ast.ExceptHandler(typ, name, self.body(c.body))))
+        return ast.Try(self.body(n.body), hs, self.stmts(n.else_clause), [])
+    def s_TryFinallyStatNode(self,n):
+        inner = self.stmts(n.body)
+        if len(inner)==1 and isinstance(inner[0], ast.Try) and not inner[0].finalbody:
+            inner[0].finalbody = self.body(n.finally_clause)
+            return inner[0]
+        return ast.Try(inner or [ast.Pass()], [], [], self.body(n.finally_clause))
     def s_BreakStatNode(self,n): return ast.Break()
     def s_ContinueStatNode(self,n): return ast.Continue()
     def s_ReturnStatNode(self,n): return ast.Return(self.expr(n.value) if n.value is not None else None)
